@@ -64,6 +64,11 @@ CHECKS = {
         note="The spec's answers are functions of the semantic conditionals by construction; the harness' formula evaluator is trusted to compute them.",
         ref="6 C12", tech="TLC trace validation of recorded answers against the TLA+ spec and the Relations monitor",
     ),
+    "C10": dict(
+        text="Formula level: TLC classifies every token string up to length 6 (quick) / 7 (thorough) over the nine formula tokens with a recognizer-with-meaning transcribed from the documented grammar; all of them are rendered (seeded whitespace/comments) and given to parse_formula, which must reject or return a formula with exactly that truth table. File level: recorded outcomes of parse_belief_base / parse_queries on generated files, query lists and all their single-token mutations are validated by TLC (Trace_Syntax): rejected, or signature, key order 1..n, consequent/antecedent truth tables, and a text representation that re-parses equivalently.",
+        note="Trusted: the transcription of CKB.g4/CL_SYNTAX.md into InfOCFSyntax.tla; the harness' formula evaluator. Identifier/whitespace lexing is exercised only through the rendered separators.",
+        ref="6 C10", tech="TLC enumeration of the token-string universe with a TLA+ recognizer (spec -> code replay) plus TLC trace validation of recorded parser calls",
+    ),
 }
 
 NOT_YET = {
